@@ -689,10 +689,19 @@ func (P *Program) registerStd() {
 	P.reg("crypto/rand.Int", func(fr *frame, args []value) value {
 		in := fr.in
 		max := in.bigOf(*args[1].(*value))
-		t := in.C.Fresh("rand", smt.Int)
-		in.assumeSilently(in.C.ILe(in.C.IntConstI(0), t))
-		in.assumeSilently(in.C.ILt(t, max))
 		in.path.noteAssumption("crypto/rand.Int returns an arbitrary value in [0, max)")
+		var t *smt.Term
+		if max.IsConst() && max.Op == smt.OpIntConst && max.Val.IsUint64() {
+			// a bit-vector variable seen as a natural number: Int64() of the result folds back to it,
+			// so that the path condition stays in one theory
+			r := in.C.Fresh("rand", smt.BV(64))
+			in.assumeSilently(in.C.BVULt(r, in.C.BVConstU(max.Val.Uint64(), 64)))
+			t = in.C.BV2Nat(r)
+		} else {
+			t = in.C.Fresh("rand", smt.Int)
+			in.assumeSilently(in.C.ILe(in.C.IntConstI(0), t))
+			in.assumeSilently(in.C.ILt(t, max))
+		}
 		var cell value = bigVal{t}
 		return tuple{&cell, iface{}}
 	})
